@@ -11,7 +11,7 @@ func init() {
 			"with a caller-owned array, and none is handed to an unsummarised callee. R17b: returned slices are fresh or the caller's own. R17c: no caller-owned " +
 			"array is retained in the receiver. A may-analysis: 'no sink reachable' is a sound argument for non-mutation under the stated assumptions.",
 		NotDecided: "that the contents written elsewhere are right; mutation through NodesInterface/CachedLeavesInterface implementations supplied by the user; the " +
-			"stand-alone GetMissingPositions (excluded by the property). One reviewed store of an equal value in (*MapPollard).undoDeletion is exempted by construct.",
+			"stand-alone GetMissingPositions (excluded by the property).",
 		Assumptions: []string{"memory is modelled flow-insensitively (weak updates): a write that only happens after a variable was re-pointed to a fresh array is still reported"},
 		Rules:       []RuleDef{{ID: "R17", Statement: "slice ownership over the API entries", Run: runC17}},
 	})
